@@ -974,13 +974,22 @@ def r19_rec_bounds(ctx):
                     if isinstance(r, ast.Return)]
             from ..flow import alternatives as _alts
 
-            def is_iterated(e, depth=0):
+            loop_nodes = set(map(id, ast.walk(the_loop)))
+            rebound = any(
+                isinstance(b_, ast.Name) and b_.id == loopvar and
+                isinstance(b_.ctx, ast.Store) and id(b_) not in loop_nodes
+                for b_ in ast.walk(f.node))
+
+            def is_iterated(e, depth=0, in_loop=False):
                 """the iterated point itself, or what next() takes from a
                 generator that yields it"""
                 if U(e) == loopvar and not isinstance(the_loop, ast.For):
                     return False
                 if U(e) == loopvar:
-                    return True
+                    # the name is the iterated point where it is read
+                    # inside the loop, or anywhere when the loop target is
+                    # its only binding in the function
+                    return in_loop or not rebound
                 if isinstance(e, ast.Call) and U(e.func) == "next" and \
                         e.args and isinstance(
                             e.args[0], ast.GeneratorExp) and \
@@ -992,7 +1001,9 @@ def r19_rec_bounds(ctx):
                     return bool(al) and all(is_iterated(v, depth + 1)
                                             for v, _ in al)
                 return False
-            rep.check(bool(rets) and all(is_iterated(r.value) for r in rets),
+            rep.check(bool(rets) and all(
+                is_iterated(r.value, in_loop=id(r) in loop_nodes)
+                for r in rets),
                       rule, ctx.fkey(f, None, "returns-iterated"), f.loc(),
                       "returns the iterated point",
                       "__getitem__ returns %s, not the iterated point" % [
